@@ -12,6 +12,7 @@ use serde_json::{json, Value};
 pub const PROP: Prop = Prop {
     run,
     replay,
+    spaces: Some(spaces),
     level_note: "trusted base: refs::hashes (FIPS 180-4 / RIPEMD-160 / RFC 2104 / RFC 8018 written from the standards, KAT-checked and cross-checked against Python hashlib by oracles/xcheck.py); values outside the stated length/pattern alphabets are not covered",
 };
 
